@@ -74,6 +74,8 @@ def do_op(r, op):
 
 
 def run(res, tier, seed):
+    import l1b as _l1b
+    _l1b.AUTO_NOISE = 7919 * seed + 13      # random bytes in every record field the spec writer does not set
     rng = common.rng_for(seed, PROP)
     plans = []
     reps = 4 if tier == "quick" else 16
